@@ -138,6 +138,13 @@ def gen_case(rng, tier, g):
         # the view is dropped while iterators are alive
         steps.insert(rng.randint(0, len(steps)),
                      ['DROPVIEW', rng.randrange(nviews)])
+    if any(n.startswith(('sort', 'cache')) or n.endswith('sort')
+           for n, _ in stack) and rng.random() < 0.2:
+        # the caching views can be told to forget their cache at any moment
+        for _ in range(rng.choice([1, 1, 2])):
+            steps.insert(rng.randint(0, len(steps)),
+                         ['CLEARCACHE', rng.randrange(nviews),
+                          rng.choice([0, 0, 1])])
     if name != 'fromdicts-gen' and rng.random() < 0.15:
         # transient source failure: one pass over a source raises instead of
         # row i; the iterator that meets it fails, every other iterator and
